@@ -44,7 +44,7 @@ pub const DEFS: [Def; 16] = [
 ];
 
 pub const TYPE_FAULTS: [&str; 6] = ["REAL", "Videotex", "TIME", "inverted-range", "undefined-ref", "macro"];
-pub const VALUE_FAULTS: [&str; 3] = ["real-value", "undefined-type-value", "all-value"];
+pub const VALUE_FAULTS: [&str; 4] = ["real-value", "real-seq-value", "undefined-type-value", "all-value"];
 
 fn fault_text(d: &Def, kind: &str) -> String {
     let n = d.name;
@@ -56,6 +56,7 @@ fn fault_text(d: &Def, kind: &str) -> String {
         "undefined-ref" => format!("{n} ::= SEQUENCE {{ u Undefined-Type }}"),
         "macro" => format!("{} MACRO ::= BEGIN TYPE NOTATION ::= \"ARG\" type VALUE NOTATION ::= value (VALUE INTEGER) END", n.to_uppercase()),
         "real-value" => format!("{n} REAL ::= 1.5"),
+        "real-seq-value" => format!("{n} REAL ::= {{ mantissa 1, base 10, exponent 2 }}"),
         "undefined-type-value" => format!("{n} Undefined-Type ::= 5"),
         "all-value" => format!("{n} INTEGER ::= ALL"),
         _ => unreachable!(),
@@ -97,6 +98,15 @@ pub fn sources(c: &Case) -> Vec<String> {
     if c.order == "rev" {
         idx.reverse();
     }
+    if c.layout == "bad-module" {
+        // every healthy definition in Main; a second module consisting of nothing but unsupported definitions
+        let body: Vec<String> = idx.iter().map(|i| DEFS[*i].text.to_string()).collect();
+        let bad: Vec<String> = c.faults.iter().enumerate().map(|(n, (i, k))| {
+            let name: &'static str = if DEFS[*i].is_value { ["bad0", "bad1", "bad2"][n % 3] } else { ["Bad0", "Bad1", "Bad2"][n % 3] };
+            fault_text(&Def { name, text: "", deps: &[], is_value: DEFS[*i].is_value }, k)
+        }).collect();
+        return vec![module("Main", "AUTOMATIC", false, &body.join("\n")), module("Bad", "AUTOMATIC", false, &bad.join("\n"))];
+    }
     if c.layout == "one" {
         let body: Vec<String> = idx.iter().map(|i| text_of(*i)).collect();
         vec![module("Main", "AUTOMATIC", false, &body.join("\n"))]
@@ -126,13 +136,47 @@ fn depends_on_fault(i: usize, faulted: &[usize]) -> bool {
     DEFS[i].deps.iter().any(|d| depends_on_fault(*d, faulted))
 }
 
+/// layout "bad-module": Main holds the 16 healthy definitions, Bad holds nothing but unsupported ones.
+/// Every Bad definition (MACROs excepted) must be the subject of a warning; Main must be untouched.
+fn check_bad_module(c: &Case, srcs: &Vec<String>) -> CaseResult {
+    let compile = |s: &Vec<String>| if c.ts { compile_ts(s) } else { compile_rasn(s, &Cfg::default()) };
+    let kinds: Vec<String> = c.faults.iter().map(|(_, k)| k.clone()).collect();
+    let dump = srcs.join("\n=====\n");
+    let (gen, warnings) = match compile(srcs) {
+        Outcome::Ok { generated, warnings } => (generated, warnings),
+        Outcome::Panic { message, location } => return CaseResult { discs: vec![Disc::new(format!("panic|{}", location.rsplit_once(':').map(|x| x.0.to_string()).unwrap_or(location.clone()).rsplit("/src/").next().unwrap_or("")), format!("{message} at {location}\n{dump}"))], nontrivial: false, outcome: "panic".into(), skipped: None },
+        Outcome::Err(_) => return CaseResult::skip("whole-compilation-err"),
+    };
+    let mut discs = vec![];
+    let need = c.faults.iter().filter(|(_, k)| k != "macro").count();
+    // an unsupported definition may still yield an item (e.g. an inverted range kept as written): then no warning is owed
+    let generated_bad = (0..3).filter(|n| gen.contains(&format!("Bad{n}")) || gen.contains(&format!("BAD{n}"))).count();
+    if warnings.len() + generated_bad < need {
+        discs.push(Disc::new(format!("lost|bad-module|ts={}|faults={}|warnings={}", c.ts, kinds.join("+"), warnings.len()), format!("{need} unsupported definitions in module Bad, {} warnings, {generated_bad} generated\nwarnings: {warnings:?}\n{dump}\n--- generated ---\n{gen}", warnings.len())));
+    }
+    // locality: Main equals the compilation of Main alone
+    let alone = compile(&vec![srcs[0].clone()]);
+    if c.ts {
+        if let Some(g) = alone.ok_clean() {
+            if !strip_ws_keep_strings(&gen).contains(&strip_ws_keep_strings(g)) {
+                discs.push(Disc::new(format!("local|bad-module|ts=true|faults={}", kinds.join("+")), format!("the TypeScript output of Main alone is not contained in the joint output\n{dump}\n--- joint ---\n{gen}\n--- alone ---\n{g}")));
+            }
+        }
+    } else if let (Ok(p), Some(Ok(rp))) = (project(&gen), alone.ok_clean().map(|g| project(g))) {
+        if p.module("main").map(|m| m.without_docs()) != rp.module("main").map(|m| m.without_docs()) {
+            discs.push(Disc::new(format!("local|bad-module|ts=false|faults={}", kinds.join("+")), format!("module Main differs from its compilation alone\nwarnings: {warnings:?}\n{dump}\n--- generated ---\n{gen}")));
+        }
+    }
+    CaseResult { discs, nontrivial: true, outcome: format!("bad-module:w{}:f{}", warnings.len().min(3), c.faults.len()), skipped: None }
+}
+
 impl Prop for C10 {
     type Case = Case;
     fn id(&self) -> &'static str {
         "C10"
     }
     fn rule(&self) -> String {
-        "base: 16 definitions of every kind (constrained INTEGER, SEQUENCE, CHOICE, ENUMERATED, SEQUENCE OF, alias, SET, BIT STRING with named bits, hyphenated name; values of INTEGER, referenced INTEGER, string, OID, enumeral, CHOICE, named bits) with a dependency graph, in one module or split over two modules with IMPORTS, in forward and reverse textual order, both backends; faults: every way of replacing k=1 (quick) / k<=2 (thorough) definitions by a parseable-but-unsupported one of each kind {REAL, VideotexString, TIME type assignment, inverted range, reference to an undefined type, MACRO definition; REAL value, value of an undefined type, ALL value}. Oracle: every top-level assignment of the faulted input is generated under its mangled name in its own module, or named by a warning, or covered by an anonymous warning (count), or is a MACRO/class/template; locality: every definition that does not transitively depend on a faulted one has exactly the items of the fault-free compilation. Non-trivial: the faulted input compiled to Ok and was accounted.".into()
+        "base: 16 definitions of every kind (constrained INTEGER, SEQUENCE, CHOICE, ENUMERATED, SEQUENCE OF, alias, SET, BIT STRING with named bits, hyphenated name; values of INTEGER, referenced INTEGER, string, OID, enumeral, CHOICE, named bits) with a dependency graph, in one module or split over two modules with IMPORTS, in forward and reverse textual order, both backends; faults: every way of replacing k=1 (quick) / k<=2 (thorough) definitions by a parseable-but-unsupported one of each kind {REAL, VideotexString, TIME type assignment, inverted range, reference to an undefined type, MACRO definition; REAL value (decimal and { mantissa, base, exponent } notation), value of an undefined type, ALL value}. Oracle: every top-level assignment of the faulted input is generated under its mangled name in its own module, or named by a warning, or covered by an anonymous warning (count), or is a MACRO/class/template; locality: every definition that does not transitively depend on a faulted one has exactly the items of the fault-free compilation. Non-trivial: the faulted input compiled to Ok and was accounted.".into()
     }
     fn selftest(&self) -> Result<u64, String> {
         for layout in ["one", "two"] {
@@ -172,10 +216,28 @@ impl Prop for C10 {
                 }
             }
         }
+        // a module consisting only of unsupported definitions next to a healthy one (1..3 definitions of every kind)
+        let all_kinds: Vec<(usize, &str)> = TYPE_FAULTS.iter().map(|k| (0usize, *k)).chain(VALUE_FAULTS.iter().map(|k| (6usize, *k))).collect();
+        for ts in [false, true] {
+            for a in &all_kinds {
+                out.push(Case { faults: vec![(a.0, a.1.into())], layout: "bad-module".into(), order: "fwd".into(), ts });
+                for b in &all_kinds {
+                    out.push(Case { faults: vec![(a.0, a.1.into()), (b.0, b.1.into())], layout: "bad-module".into(), order: "fwd".into(), ts });
+                    if tier.thorough() {
+                        for c3 in &all_kinds {
+                            out.push(Case { faults: vec![(a.0, a.1.into()), (b.0, b.1.into()), (c3.0, c3.1.into())], layout: "bad-module".into(), order: "rev".into(), ts });
+                        }
+                    }
+                }
+            }
+        }
         out
     }
     fn check(&self, c: &Case) -> CaseResult {
         let srcs = sources(c);
+        if c.layout == "bad-module" {
+            return check_bad_module(c, &srcs);
+        }
         let clean = Case { faults: vec![], ..c.clone() };
         let compile = |s: &Vec<String>| if c.ts { compile_ts(s) } else { compile_rasn(s, &Cfg::default()) };
         let o = compile(&srcs);
